@@ -409,7 +409,33 @@ def one_fault(lab, s, fault):
     elif kind == "kill-after":
         killer = par
     try:
-        if killer is None:
+        if kind == "fsize-transient":
+            # a write that fails after `par` bytes because of a limit that is gone a moment later (a quota raised, space freed):
+            # code that retries the write must not leave the bytes of the first attempt in front of the second
+            import resource
+            tgt0 = s.target(d)
+            p = subprocess.Popen(["prlimit", "--fsize=%d" % par, "--", lab.wtf] + s.argv, cwd=os.path.join(d, "cwd"), env=child_env(d),
+                                 stdin=subprocess.DEVNULL, stdout=subprocess.PIPE, stderr=subprocess.PIPE)
+            t_end = time.time() + 2.0
+            while time.time() < t_end and p.poll() is None:
+                hit = False
+                for f in stray_temps(tgt0):
+                    try:
+                        if os.path.getsize(os.path.join(os.path.dirname(tgt0), f)) >= par:
+                            hit = True
+                    except OSError:
+                        pass
+                if hit:
+                    time.sleep(0.004)   # let the failing write return
+                    try:
+                        resource.prlimit(p.pid, resource.RLIMIT_FSIZE, (resource.RLIM_INFINITY, resource.RLIM_INFINITY))
+                    except (ProcessLookupError, PermissionError, ValueError):
+                        pass
+                    break
+                time.sleep(0.001)
+            o, e = p.communicate(timeout=60)
+            rc, out, err = p.returncode, o.decode("utf-8", "replace"), e.decode("utf-8", "replace")
+        elif killer is None:
             rc, out, err = run_cmd(lab.wtf, d, s.argv, wrapper=wrapper)
         else:
             p = subprocess.Popen([lab.wtf] + s.argv, cwd=os.path.join(d, "cwd"), env=child_env(d), stdin=subprocess.DEVNULL,
@@ -508,6 +534,7 @@ def fault_plan(ctx, s, rng):
     for sysc, cnt in (("fchmod", 1), ("fsync", 1), ("renameat", 1), ("write", nwrites), ("close", 40), ("openat", 45)):
         for i in range(1, cnt + 1):
             fs.append(("inject", (sysc, "signal=SIGKILL", str(i))))
+    fs += [("fsize-transient", k) for k in sorted(set([1, 2, max(1, n // 3), max(1, n // 2), max(1, n - 1)] + (rng.sample(range(1, max(2, n)), min(6, max(1, n - 1))) if n > 2 else [])))]
     nk = 12 if ctx.tier == "quick" else 60
     fs += [("kill-after", round(rng.uniform(0.0, 0.006), 5)) for _ in range(nk)]
     return fs
